@@ -13,6 +13,7 @@ import SimVerif.Lemmas.HttpServerBasic
 import SimVerif.Lemmas.HttpServerCb
 import SimVerif.Lemmas.HttpServerRun
 import SimVerif.Lemmas.HttpServerReq
+import SimVerif.Lemmas.HttpServerSafe
 
 namespace SimVerif.HttpServer
 
@@ -241,6 +242,19 @@ theorem C16_stall_stream (cfg : Srv) (r : RawRequest) (hwf : WellFormed r) (hfr 
   rw [hst] at h1
   rw [specStream]
   split <;> simp_all
+
+/-! ## no undefined behaviour -/
+
+/-- For EVERY byte stream in EVERY chunking the run never performs an out-of-bounds access
+    (`&m_recv_buffer[m_bytes_used]`, the transport's write into the buffer, the parser's raw
+    pointer reads, `erase`, `m_bytes_used -= req_len`) and no handler overflows: the checked
+    operations of the model never yield `Act.ub`. (The signed overflows of the pinned tree in
+    `register_content` — `stoll(..) + 1`, `end - start` on hostile Range headers — were
+    reported and fixed; the guard of the fix is what makes `contentHandler` overflow-free.) -/
+theorem C16_no_undefined_behaviour (cfg : Srv) (chunks : List Bytes) :
+    (run cfg chunks).fin ≠ .ub := by
+  rw [run_eq_spec]
+  exact specStream_no_ub cfg _
 
 /-! ## keep-alive -/
 
